@@ -478,6 +478,7 @@ impl Prop for C14 {
         // real block devices (loop devices): one worker only, sequential
         if cx.worker == 0 && std::env::var("VERIF_ONLY").map(|o| o.split(',').any(|v| v == "loopdev")).unwrap_or(true) {
             let dir = worker_dir("C14");
+            let _ = std::fs::create_dir_all(&dir);
             LoopDev::detach_stale(&format!("{}/target/work/C14", crate::engine::verif_root()));
             match (LoopDev::attach(&dir, "loop_big.img", 64 * 1024), LoopDev::attach(&dir, "loop_small.img", 512)) {
                 (Some(big), Some(small)) => {
